@@ -301,6 +301,17 @@ def setSliceInt (m : Mode) (l : Bits) (k : Key) (v : Int) : Except Err Bits :=
     else
       if v < -((2 : Int) ^ (len - 1)) then .error .value else setitemSlice m l k (intToBits len v)
 
+/-- SPEC: the bit operand an integer stands for in `x[a:b] = n` / `x[a:b:±1] = n`: `n` written as a uint (n ≥ 0)
+    or two's-complement int (n < 0) exactly as wide as the slice; it depends on the length only, not on the mode. -/
+def intOperand (n : Nat) (k : Key) (v : Int) : Except Err Bits :=
+  let r := Py.sliceIndices k.start k.stop (k.step.getD 1) n
+  let len := Py.rangeLen r.1 r.2.1 r.2.2
+  if len = 0 then .error .value else
+  if v ≥ 0 then
+    if v ≥ (2 : Int) ^ len then .error .value else .ok (natToBits len v.toNat)
+  else
+    if v < -((2 : Int) ^ (len - 1)) then .error .value else .ok (intToBits len v)
+
 def delItem (m : Mode) (l : Bits) (i : Int) : Except Err Bits := delitemIdx m l i
 def delSliceOp (m : Mode) (l : Bits) (k : Key) : Except Err Bits := delitemSlice m l k
 
